@@ -54,7 +54,8 @@ def local_units(options=None, variant=''):
 def alphabet(tus_fns, extra_consts=(), utf8=False):
     consts, masks = scanex.function_constants(tus_fns)
     consts |= set(extra_consts)
-    reps, class_of, classes = scanex.byte_classes(consts, masks, LP.PREDICATE_SETS)
+    der = scanex.derived_ops(tus_fns)
+    reps, class_of, classes = scanex.byte_classes(consts, masks, LP.PREDICATE_SETS, derived=der)
     syms = list(reps)
     if utf8:
         # a non-ASCII character is NA + (class of the low byte of its code point): code that narrows the code point
